@@ -1,9 +1,12 @@
 #!/bin/bash
-# tools/seedimport6.sh Cxx …  — import round-6 seed outputs (/tmp/seedr6/Cxx/out/{A,B}) as seeded/Cxx-{K,L}, drop the worktree
+# tools/seedimport6.sh Cxx …  — import seed outputs of round $R (default 6): /tmp/seedr$R/Cxx/out/{A,B} become
+# seeded/Cxx-{K,L} (round 6) or seeded/Cxx-{M,N} (round 7); the scratch worktree is removed
+R=${R:-6}
+if [ "$R" = 7 ]; then N1=M; N2=N; else N1=K; N2=L; fi
 for p in "$@"; do
-  for pair in A:K B:L; do
-    s=/tmp/seedr6/$p/out/${pair%%:*}; d=/verif/seeded/$p-${pair##*:}
+  for pair in A:$N1 B:$N2; do
+    s=/tmp/seedr$R/$p/out/${pair%%:*}; d=/verif/seeded/$p-${pair##*:}
     if [ -s $s/patch.diff ]; then mkdir -p $d; cp $s/patch.diff $s/demo.py $s/notes.md $d/ 2>/dev/null; fi
   done
-  git -C /repo worktree remove --force /tmp/seedr6/$p/wt 2>/dev/null
+  git -C /repo worktree remove --force /tmp/seedr$R/$p/wt 2>/dev/null
 done
